@@ -27,7 +27,7 @@ COMPONENTS = {"real": ["amaranth.hdl._cd.ClockDomain", "amaranth.hdl._xfrm (Rese
 EXPECTED_PROBES = ("sched", "coincide", "inactive", "srst", "arst", "gate", "reset_inserter", "enable_inserter", "domain_renamer",
                    "async_domain", "negedge_domain", "reset_less_signal", "edge_under_reset", "submodules", "obs_changes",
                    "clock_signal_read", "reset_signal_read", "shadowing_domain")
-OPTS = {"max_domains": 3, "max_modules": 4, "wrappers": True, "prints": False, "fsm": True, "max_stmts": 6, "depth": 1, "clock_reads": True, "shadows": True}
+OPTS = {"max_domains": 3, "max_modules": 4, "wrappers": True, "prints": False, "fsm": True, "max_stmts": 6, "depth": 1, "clock_reads": True, "shadows": True, "derived_clocks": True}
 
 
 def gen_case(seed, tier):
